@@ -51,6 +51,9 @@ type World struct {
 
 	callers map[*FuncInfo]map[*FuncInfo]bool
 
+	fieldRoleCache map[string]*types.Var
+	canonOf        map[*types.Var]string
+
 	ssaProg *ssa.Program
 	ssaPkgs map[*packages.Package]*ssa.Package
 }
@@ -311,7 +314,156 @@ func (w *World) Within(fi *FuncInfo, depth int) []*FuncInfo {
 
 // Fn looks a function up by display name in a package; nil if absent.
 func (w *World) Fn(p *packages.Package, display string) *FuncInfo {
-	return w.byName[p.PkgPath+"."+display]
+	if fi := w.byName[p.PkgPath+"."+display]; fi != nil {
+		return fi
+	}
+	// the name is only a hint for unexported helpers: fall back to the role
+	if pred, ok := roleFallbacks[display]; ok {
+		var found []*FuncInfo
+		for _, fi := range w.FuncsOf(p) {
+			if !fi.Obj.Exported() && pred(w, fi) {
+				found = append(found, fi)
+			}
+		}
+		if len(found) == 1 {
+			return found[0]
+		}
+	}
+	return nil
+}
+
+// IsFn reports whether cal is the repository function known by display name
+// (or, if it was renamed, by its role).
+func (w *World) IsFn(cal *types.Func, p *packages.Package, display string) bool {
+	if cal == nil {
+		return false
+	}
+	fi := w.Fn(p, display)
+	return fi != nil && fi.Obj == cal
+}
+
+func recvIs(fi *FuncInfo, name string) bool {
+	rn := recvNamed(fi.Obj)
+	return rn != nil && rn.Obj().Name() == name
+}
+
+func hasLiteralOf(w *World, fi *FuncInfo, pkgPath, typeName string, depth int) bool {
+	for _, f := range w.Within(fi, depth) {
+		found := false
+		ast.Inspect(f.Decl.Body, func(n ast.Node) bool {
+			if cl, ok := n.(*ast.CompositeLit); ok {
+				if tv, ok := f.Pkg.TypesInfo.Types[cl]; ok && isNamedType(tv.Type, pkgPath, typeName) {
+					found = true
+				}
+			}
+			return !found
+		})
+		if found {
+			return true
+		}
+	}
+	return false
+}
+
+func callsIfaceOf(fi *FuncInfo, iface string) bool {
+	for _, c := range callsIn(fi.Decl.Body, true) {
+		if cal := callee(fi.Pkg.TypesInfo, c); cal != nil {
+			if rn := recvNamed(cal); rn != nil && rn.Obj().Name() == iface {
+				return true
+			}
+		}
+	}
+	return false
+}
+
+func resultsAre(fi *FuncInfo, check func(*types.Tuple) bool) bool {
+	return check(fi.Obj.Type().(*types.Signature).Results())
+}
+
+// roleFallbacks resolves renamed unexported helpers by what they do.
+var roleFallbacks = map[string]func(w *World, fi *FuncInfo) bool{
+	"(*collection).addService": func(w *World, fi *FuncInfo) bool {
+		if !recvIs(fi, "collection") {
+			return false
+		}
+		n := 0
+		for _, name := range []string{"(*collection).AddSingleton", "(*collection).AddScoped", "(*collection).AddTransient"} {
+			if c := w.byName[fi.Pkg.PkgPath+"."+name]; c != nil && w.Callers()[fi][c] {
+				n++
+			}
+		}
+		return n == 3
+	},
+	"(*collection).validateLifetimes": func(w *World, fi *FuncInfo) bool {
+		return recvIs(fi, "collection") && hasLiteralOf(w, fi, modPath, "LifetimeConflictError", 2) && len(w.Callers()[fi]) > 0 && !hasLiteralOf(w, fi, modPath, "provider", 0)
+	},
+	"newScope": func(w *World, fi *FuncInfo) bool {
+		return fi.Decl.Recv == nil && resultsAre(fi, func(t *types.Tuple) bool {
+			return t.Len() == 2 && isNamedType(t.At(0).Type(), modPath, "scope") && isErrorType(t.At(1).Type())
+		})
+	},
+	"(*provider).findDescriptor": func(w *World, fi *FuncInfo) bool {
+		return recvIs(fi, "provider") && resultsAre(fi, func(t *types.Tuple) bool {
+			if t.Len() != 1 {
+				return false
+			}
+			_, isPtr := t.At(0).Type().(*types.Pointer)
+			return isPtr && isNamedType(t.At(0).Type(), modPath, "Descriptor")
+		})
+	},
+	"(*provider).findGroupDescriptors": func(w *World, fi *FuncInfo) bool {
+		return recvIs(fi, "provider") && resultsAre(fi, func(t *types.Tuple) bool {
+			if t.Len() != 1 {
+				return false
+			}
+			sl, isSl := t.At(0).Type().(*types.Slice)
+			return isSl && isNamedType(sl.Elem(), modPath, "Descriptor")
+		})
+	},
+	"(*Analyzer).analyzeParamObject": func(w *World, fi *FuncInfo) bool {
+		return recvIs(fi, "Analyzer") && hasLiteralOf(w, fi, modPath+"/internal/reflection", "ParameterInfo", 0) && hasNumFieldLoop(fi)
+	},
+	"(*Analyzer).analyzeResultObject": func(w *World, fi *FuncInfo) bool {
+		return recvIs(fi, "Analyzer") && hasLiteralOf(w, fi, modPath+"/internal/reflection", "ReturnInfo", 0) && hasNumFieldLoop(fi)
+	},
+	"(*Analyzer).buildDependencies": func(w *World, fi *FuncInfo) bool {
+		return recvIs(fi, "Analyzer") && hasLiteralOf(w, fi, modPath+"/internal/reflection", "Dependency", 0)
+	},
+	"(*ConstructorInvoker).resolveParameter": func(w *World, fi *FuncInfo) bool {
+		return recvIs(fi, "ConstructorInvoker") && callsIfaceOf(fi, "DependencyResolver")
+	},
+	"(*ParamObjectBuilder).resolveFieldDependency": func(w *World, fi *FuncInfo) bool {
+		return recvIs(fi, "ParamObjectBuilder") && callsIfaceOf(fi, "DependencyResolver")
+	},
+	"(*ConstructorInvoker).buildArguments": func(w *World, fi *FuncInfo) bool {
+		return recvIs(fi, "ConstructorInvoker") && resultsAre(fi, func(t *types.Tuple) bool {
+			if t.Len() != 2 || !isErrorType(t.At(1).Type()) {
+				return false
+			}
+			sl, isSl := t.At(0).Type().(*types.Slice)
+			return isSl && isNamedType(sl.Elem(), "reflect", "Value")
+		}) && !callsIfaceOf(fi, "DependencyResolver") && fi.Obj.Name() != "invokeWithRecovery" && !callsReflectCall(fi)
+	},
+}
+
+func hasNumFieldLoop(fi *FuncInfo) bool {
+	found := false
+	ast.Inspect(fi.Decl.Body, func(n ast.Node) bool {
+		if fs, ok := n.(*ast.ForStmt); ok && fs.Cond != nil && strings.Contains(exprStr(fs.Cond), "NumField") {
+			found = true
+		}
+		return !found
+	})
+	return found
+}
+
+func callsReflectCall(fi *FuncInfo) bool {
+	for _, c := range callsIn(fi.Decl.Body, true) {
+		if isFunc(callee(fi.Pkg.TypesInfo, c), "reflect", "Value", "Call") {
+			return true
+		}
+	}
+	return false
 }
 
 // MustFn is Fn, but an absent anchor makes the run UNDECIDED.
@@ -380,6 +532,9 @@ func (w *World) Field(p *packages.Package, structName, field string) *types.Var 
 		if st.Field(i).Name() == field {
 			return st.Field(i)
 		}
+	}
+	if v := w.resolveFieldRole(p, structName, field); v != nil {
+		return v // renamed: found again by its role
 	}
 	undecidedf("anchor field %s.%s.%s not found", p.PkgPath, structName, field)
 	return nil
